@@ -34,7 +34,31 @@ def live_part(tier, mon, kinds=None):
             'opts': {'max_depth': 0}}
 
 
-def story_item_parts(tier, mon, *, timing_variants=True, small=False, mixed=True, live=True):
+def live3_part(tier, mon, kinds=None):
+    """Three-message histories on ONE live object (see monitors.LiveThirdStep)."""
+    from ..monitors import LiveThirdStep
+    from .. import spec
+    kinds = kinds or spec.ALL_KINDS
+    if tier == 'quick':
+        shapes = [('AB', 'A', 'C'), ('D', 'A'), ('C', 'D', 'AB'), ('A', 'AB')]
+        layouts = ('before', 'between', 'after')
+        first = HMixed(max_list=1, story_L=1, meta_subsets=1, layouts=layouts, init_shapes=shapes)
+        second = HMixed(max_list=1, story_L=1, meta_subsets=1)
+        third = HMixed(max_list=1, story_L=1, meta_subsets=1, kinds=kinds)
+        from ..explore import canonical
+        states = list(dict.fromkeys(canonical(t) for t in first.initial_states()))
+        n = len(states) // len(shapes)
+        slices = {t: (i // len(shapes), n) for i, t in enumerate(states)} if len(states) == len(shapes) * len(layouts) else None
+        w = LiveThirdStep(mon, second, third, first_per_kind=1, second_per_kind=1, third_per_kind=4, slices=slices)
+    else:
+        first = HMixed(max_list=1, story_L=1, meta_subsets=1, layouts=('before',))
+        second = HMixed(max_list=1, story_L=2, meta_subsets=1)
+        third = HMixed(max_list=2, story_L=2, meta_subsets=1, kinds=kinds)
+        w = LiveThirdStep(mon, second, third, first_per_kind=2, second_per_kind=2, third_per_kind=12)
+    return {'label': 'live-three-message-histories', 'harness': first, 'monitors': [w], 'opts': {'max_depth': 0}}
+
+
+def story_item_parts(tier, mon, *, timing_variants=True, small=False, mixed=True, live=True, live3=True):
     if tier == 'quick':
         parts = [
             {'label': 'stories-pool4-cap3-L2' if small else 'stories-pool5-cap4-L2',
@@ -82,6 +106,8 @@ def story_item_parts(tier, mon, *, timing_variants=True, small=False, mixed=True
             parts.append(mixed_part(tier, mon))
         if live:
             parts.append(live_part(tier, mon))
+    if live3:
+        parts.append(live3_part(tier, mon))
     return parts
 
 
